@@ -24,7 +24,7 @@ import (
 func init() {
 	Registry["C13"] = &Check{
 		Scenarios: c13Scenarios,
-		Rule: "client side: MaxRetransmits R in {0,1,2}, WatchdogInterval 3 s, RetransmitInterval 1 s on the virtual clock; the peer's reaction to the n-th DWR transmission is scripted from {success DWA after 0, 1/2 or 1 interval (1 = exact tie with the retransmission timer), DWA 5012 at once, silence}, scripts with other non-success answers (1001, 3004, a DWA without Result-Code), plus five burst scripts with answers delayed by 3/2 and 5/2 intervals (several late answers landing inside one later waiting window); all scripts of length <=2 (thorough 3), silence afterwards, so every run ends with the watchdog closing the connection; every schedule of watchdog thread, reader, timers and peer up to preemption bound 2 (thorough: unbounded for scripts of length <=1); peer steps and due timers are free transitions, so every ordering of answer / timer / reader is explored already at bound 0. Oracle: the observed (time, hop-by-hop id) sequence of DWRs and the close time must be one of the timelines of a reference model (branching only at exact ties). Redial: the peer of a first connection leaves the first DWR unanswered and disconnects 0 or 1/2 interval later, the application redials at once with the same Client, and the second connection (peer answers two DWRs, then silence) must show the model's timeline measured from its own handshake (R in {0,1}). A handshake that takes longer than WatchdogInterval (the peer answers only the retransmitted CER): no DWR before the CEA, the first one interval after it. Two live connections of one Client (dialled one after the other, both peers answer every DWR): neither is closed and each sees one DWR per interval. A client with the watchdog enabled answers a DWR its handshaken peer sends (between rounds and at the instant of its own DWR). Server side: one state machine serves 40 peers one after the other (handshake, DWR, disconnect each); for every DWR from a handshaken peer over {both identity AVPs, Origin-Host missing, Origin-Realm missing, with Origin-State-Id, Origin-Host in another letter case, another Origin-Host} x ids {0,1,2^31,2^32-1}^2 the state machine must answer a success DWA with the local identity and the request's ids.",
+		Rule: "client side: MaxRetransmits R in {0,1,2}, WatchdogInterval 3 s, RetransmitInterval 1 s on the virtual clock; the peer's reaction to the n-th DWR transmission is scripted from {success DWA after 0, 1/2 or 1 interval (1 = exact tie with the retransmission timer), DWA 5012 at once, silence}, scripts with other non-success answers (1001, 3004, a DWA without Result-Code) and with a peer that leaves a DWR unanswered but sends a DWR of its own at that instant, plus five burst scripts with answers delayed by 3/2 and 5/2 intervals (several late answers landing inside one later waiting window); all scripts of length <=2 (thorough 3), silence afterwards, so every run ends with the watchdog closing the connection; every schedule of watchdog thread, reader, timers and peer up to preemption bound 2 (thorough: unbounded for scripts of length <=1); peer steps and due timers are free transitions, so every ordering of answer / timer / reader is explored already at bound 0. Oracle: the observed (time, hop-by-hop id) sequence of DWRs and the close time must be one of the timelines of a reference model (branching only at exact ties). Redial: the peer of a first connection leaves the first DWR unanswered and disconnects 0 or 1/2 interval later, the application redials at once with the same Client, and the second connection (peer answers two DWRs, then silence) must show the model's timeline measured from its own handshake (R in {0,1}). A handshake that takes longer than WatchdogInterval (the peer answers only the retransmitted CER): no DWR before the CEA, the first one interval after it. Two live connections of one Client (dialled one after the other, both peers answer every DWR): neither is closed and each sees one DWR per interval. A client with the watchdog enabled answers a DWR its handshaken peer sends (between rounds and at the instant of its own DWR). Server side: one state machine serves 40 peers one after the other (handshake, DWR, disconnect each); for every DWR from a handshaken peer over {both identity AVPs, Origin-Host missing, Origin-Realm missing, with Origin-State-Id, Origin-Host in another letter case, another Origin-Host} x ids {0,1,2^31,2^32-1}^2 the state machine must answer a success DWA with the local identity and the request's ids.",
 		Assume: []string{"virtual time: writes and computation take no time", "data-race freedom between visible operations (audited separately with -race)"},
 		QuickBudget: 150, ThoroughBudget: 2400,
 	}
@@ -92,7 +92,9 @@ func c13Scenarios(tier string) []*Scenario {
 	}
 	// late answers that arrive in a burst during a later transmission's window, then silence
 	// answers that are not success answers: 1001, 3004, and a DWA without Result-Code
-	for _, sc := range [][]string{{"b1k"}, {"bnr"}, {"b3k"}, {"ok0", "b1k"}, {"bnr", "ok0"}, {"b3k", "b1k", "bnr"}} {
+	// "dwr": the peer leaves the DWR unanswered and sends a DWR of its own instead - a request from
+	// the peer is not an answer: the round goes on (retransmission, then close) as for silence
+	for _, sc := range [][]string{{"b1k"}, {"bnr"}, {"b3k"}, {"ok0", "b1k"}, {"bnr", "ok0"}, {"b3k", "b1k", "bnr"}, {"dwr"}, {"dwr", "dwr"}, {"ok0", "dwr"}, {"dwr", "ok0"}} {
 		for R := 0; R <= 1; R++ {
 			out = append(out, c13Scenario(R, sc, bound))
 		}
@@ -296,6 +298,13 @@ func c13Scenario(R int, script []string, bound int) *Scenario {
 				case 257:
 					conn.Deliver(peerAnswer(m, 2001, true))
 				case 280:
+					if m.Hdr.Flags&0x80 == 0 {
+						// the DWA to a DWR the peer sent itself (action "dwr")
+						if m.Hdr.HbH&0xf0000000 != 0x90000000 || m.Find(268) == nil || be32(m.Find(268).Payload) != 2001 {
+							st.note = append(st.note, fmt.Sprintf("the peer's own DWR was answered with a DWA that does not mirror it (hop-by-hop %#x)", m.Hdr.HbH))
+						}
+						continue
+					}
 					st.tx = append(st.tx, c13Tx{At: vs.Now(), HbH: m.Hdr.HbH, Raw: m.Raw})
 					a := "sil"
 					if n < len(script) {
@@ -315,6 +324,9 @@ func c13Scenario(R int, script []string, bound int) *Scenario {
 						conn.Deliver(peerAnswer(req, 3004, false))
 					case "bnr": // a DWA without any Result-Code
 						conn.Deliver(peerAnswerOpt(req, 0, false, true, false))
+					case "dwr": // no answer; instead the peer (which runs a watchdog too) sends a DWR of its own
+						conn.Deliver(refcodec.EncodeMessage(refcodec.Header{Version: 1, Flags: 0x80, Code: 280, HbH: 0x90000000 + uint32(n), E2E: 7},
+							[]refcodec.Node{ident(264, "srv"), ident(296, "test")}))
 					case "okH", "ok1", "ok3H", "ok5H":
 						d := time.Duration(c13Delay(a)) * c13I / 2
 						vs.GoNamed("peer-late-dwa", true, func() {
